@@ -39,6 +39,13 @@ def _one(arg):
         if res.exc is None and not res.ok:
             viol.append((res.clause, f'operation returned normally under the fault but: {res.detail}'))
         content = info['content']
+        if res.exc is None and res.ok and not info['damaged']:
+            # "either completes correctly or raises": it returned normally, so the store must now be what a fault-free run gives
+            raw_now = RawState(w.root)
+            for k in w.model.present():
+                if raw_now.object_bytes(k) != content[k]:
+                    viol.append(('returned-normally-but-incomplete', f'the operation returned normally under the fault but object {k[:10]} '
+                                                                     f'is {"missing" if raw_now.object_bytes(k) is None else "wrong"} afterwards'))
         # 1. the faulted handle may raise, but never returns wrong bytes / reports a stored object absent
         for k in info['keys']:
             if k in info['damaged']:
@@ -63,6 +70,25 @@ def _one(arg):
         missing_pack = any(str(r.pack_id) not in raw.packs for r in raw.rows)
         if sc.op[0] in ('repack', 'repack_pack') and (refs_repack or missing_pack):
             outcome += '+repack-interrupted'
+            if not viol:
+                # The rerun of an interrupted repack need not succeed (manual repair), but the attempt must leave every object
+                # where the index says: a new handle tries the same operation, refusing (raising) is fine.
+                c2 = Container(w.root)
+                try:
+                    try:
+                        if sc.op[0] == 'repack':
+                            from disk_objectstore import CompressMode
+                            c2.repack(CompressMode[sc.op[1]])
+                        else:
+                            from disk_objectstore import CompressMode
+                            c2.repack_pack(str(sc.op[1]), CompressMode[sc.op[2]])
+                        outcome += '+retry-returned'
+                    except Exception:  # pylint: disable=broad-except
+                        outcome += '+retry-refused'
+                finally:
+                    c2.close()
+                for clause, detail in check_image(w.root, info):
+                    viol.append(('after-repack-retry-' + clause, detail))
         elif not viol:
             for name in raw.pack_other:
                 if name.endswith('.lock'):
